@@ -161,6 +161,17 @@ pub fn alloc_end(base: usize) -> AllocReading {
 // ------------------------------------------------------------------------------------------------
 // CPU monitor
 
+#[cfg(miri)]
+pub fn thread_cpu_us() -> u64 {
+    0
+}
+
+#[cfg(miri)]
+fn process_cpu_us() -> u64 {
+    0
+}
+
+#[cfg(not(miri))]
 pub fn thread_cpu_us() -> u64 {
     let mut ts = libc::timespec {
         tv_sec: 0,
@@ -170,6 +181,7 @@ pub fn thread_cpu_us() -> u64 {
     ts.tv_sec as u64 * 1_000_000 + ts.tv_nsec as u64 / 1000
 }
 
+#[cfg(not(miri))]
 fn process_cpu_us() -> u64 {
     let mut ts = libc::timespec {
         tv_sec: 0,
